@@ -159,8 +159,10 @@ def bounds(tier):
     if tier == "quick":
         return {"k_full_alphabet": 2, "k_mid_alphabet": 3, "atoms": len(ATOMS), "conds": len(CONDS),
                 "mid_atoms": len(MID_ATOMS), "core_conds": len(CORE_CONDS), "max_nesting": 2,
+                "control_skeletons": "all bodies with 4-5 items over 3 atoms x 2 conditions",
                 "inputs": 2, "runs_per_description": len(RUNS), "max_steps": 5, "horizon_events": 16}
     return {"k_full_alphabet": 3, "k_core_alphabet": 4, "atoms": len(ATOMS), "conds": len(CONDS),
+            "control_skeletons": "all bodies with 4-5 items over 4 atoms x 2 conditions",
             "core_atoms": len(CORE_ATOMS), "core_conds": len(CORE_CONDS), "max_nesting": 2,
             "inputs": 2, "runs_per_description": len(RUNS), "max_steps": 5, "horizon_events": 16}
 
@@ -224,7 +226,8 @@ def shape_str(shape):
 def shards(tier, seed):
     out = []
     nsh = 64 if tier == "quick" else 256
-    plan = [("full", 2), ("mid", 3)] if tier == "quick" else [("full", 3), ("core", 4)]
+    # "ctl": control skeletons (nesting 2, if/else shapes up to 5 items) over a tiny atom set
+    plan = [("full", 2), ("mid", 3), ("ctl3", 5)] if tier == "quick" else [("full", 3), ("core", 4), ("ctl4", 5)]
     for space, k in plan:
         for r in range(nsh):
             out.append({"space": space, "k": k, "mod": nsh, "rem": r})
@@ -232,11 +235,13 @@ def shards(tier, seed):
 
 
 def space_iter(space, k):
-    atoms = {"full": list(ATOMS), "mid": MID_ATOMS, "core": CORE_ATOMS}[space]
+    atoms = {"full": list(ATOMS), "mid": MID_ATOMS, "core": CORE_ATOMS,
+             "ctl3": ["a+=1", "b=2a", "yield a"], "ctl4": ["a+=1", "b=2a", "yield a", "fail"]}[space]
     conds = list(CONDS) if space == "full" else CORE_CONDS
     lo = 0
-    if space == "core":
-        lo = 0
+    if space.startswith("ctl"):
+        conds = ["s:a>1", "e3:y==0"]
+        lo = 4
     for kk in range(lo, k + 1):
         yield from gen_bodies(kk, atoms, conds)
 
